@@ -76,7 +76,7 @@ def forall(lo, hi, body, patterns=None):
         f = z3.Implies(z3.And(q >= zlo, q < zhi), b)
         if patterns is not None:
             pats = [_trigger(p if isinstance(p, z3.ExprRef) else p.z) for p in patterns(SInt(q))]
-            pats = [p for p in pats if p is not None]
+            pats = [p for p in pats if p is not None and _mentions(p, q)]
             if pats:
                 try:
                     return SBool(z3.ForAll([q], f, patterns=pats))
@@ -118,6 +118,20 @@ def _trigger(t):
             return None
         return z3.Select(a, i)
     return t
+
+
+def _mentions(t, q):
+    todo, seen = [t], set()
+    while todo:
+        x = todo.pop()
+        if x.get_id() in seen:
+            continue
+        seen.add(x.get_id())
+        if x.eq(q):
+            return True
+        if z3.is_app(x):
+            todo.extend(x.children())
+    return False
 
 
 _MODE = ["native"]
